@@ -122,6 +122,45 @@ def _run_case_inner(ctx, case):
             if got[0][0] != want_a:
                 bad('address.reference', 'change=%d index=%d: wallets derive %s (%s), reference gives %s' %
                     (change, index, got[0][0], got[0][1], want_a))
+        # ---- (1b) bulk key requests followed by new_key: no index is handed out twice, the index field is the last
+        # path level, every wallet and the reference agree on the address of every (change, index) ------------
+        bulk = case.get('bulk') or 0
+        if bulk:
+            flags.add('bulk_keys')
+            per_wallet = []
+            for i, w in enumerate(wallets):
+                kw = {'cosigner_id': 0} if wt == 'legacy' else {}
+                handed = []
+                try:
+                    ks = w.get_keys(number_of_keys=bulk, change=case.get('bulk_change', 0), **kw)
+                    handed += list(ks)
+                    for _ in range(2):
+                        handed.append(w.new_key(change=case.get('bulk_change', 0), **kw))
+                except Exception as e:
+                    bad('bulk.raises', 'wallet %d get_keys(%d)/new_key raised %r' % (i, bulk, e))
+                rows = []
+                for k in handed:
+                    last = k.path.split('/')[-1]
+                    chg = int(k.path.split('/')[-2])
+                    if not last.isdigit() or k.address_index != int(last) or k.change != chg:
+                        bad('bulk.index_field', 'wallet %d: key at %s has address_index %r / change %r' %
+                            (i, k.path, k.address_index, k.change))
+                    want_a, want_s = _ref_script(case, chg, int(last))
+                    ref_scripts[want_a] = want_s
+                    if k.address != want_a:
+                        bad('address.reference', 'wallet %d: key at %s has address %s, reference %s' %
+                            (i, k.path, k.address, want_a))
+                    rows.append((k.path, k.address))
+                new_paths = [p for p, _ in rows[bulk:]]
+                if len(set(new_paths)) != len(new_paths) or set(new_paths) & set(p for p, _ in rows[:bulk]):
+                    bad('bulk.index_repeated', 'wallet %d: new_key() after get_keys(%d) handed out a key again: '
+                        'get_keys -> %r, new_key -> %r' % (i, bulk, [p for p, _ in rows[:bulk]], new_paths))
+                if len(set(p for p, _ in rows[:bulk])) != bulk:
+                    bad('bulk.count', 'wallet %d: get_keys(%d) returned paths %r' % (i, bulk, [p for p, _ in rows[:bulk]]))
+                per_wallet.append(rows)
+            if any(r != per_wallet[0] for r in per_wallet[1:]):
+                bad('address.disagree', 'cosigner wallets hand out different keys for the same requests: %r' %
+                    per_wallet)
         # ---- (2) ceremony -------------------------------------------------------------------------------------
         creator = case['creator'] % n
         wa = wallets[creator]
@@ -313,7 +352,8 @@ def _strategy(ctx):
         afs = draw(st.one_of(st.none(), st.lists(st.booleans(), min_size=n, max_size=n)))
         locktime = draw(st.sampled_from([None, None, 0, 0, 1, 499999999, 500000000, 1700000000]))
         return {'kind': 'ceremony', 'n': n, 'm': m, 'witness_type': wt, 'seeds': [s.hex() for s in seeds],
-                'afs': afs, 'locktime': locktime, 'perms': perms, 'creator': draw(st.integers(0, n - 1)), 'handoffs': handoffs,
+                'afs': afs, 'locktime': locktime, 'perms': perms,
+                'bulk': draw(st.sampled_from([0, 0, 2, 3])), 'bulk_change': draw(st.sampled_from([0, 0, 1])), 'creator': draw(st.integers(0, n - 1)), 'handoffs': handoffs,
                 'rng': draw(st.integers(0, 2 ** 31))}
     return cases()
 
